@@ -142,7 +142,7 @@ def gen_ord(rnd, pool):
     for n in range(1, nops + 1):
         a, b, t = rnd.randrange(3), rnd.randrange(3), rnd.randrange(3)
         A, B, T = a + 1, b + 1, t + 1
-        mode, res = "", "None"
+        mode, res = "", "NORES"
         r = rnd.random()
         isdict = rnd.random() < 0.55
         if isdict:
@@ -165,10 +165,10 @@ def gen_ord(rnd, pool):
                 mode, res = "v", "r"
             elif r < 0.62:
                 k = K()
-                op, st, tgt = ["dpop", A, k], "r = %s.pop(%s, None)" % (da, S(k)), da
+                op, st, tgt = ["dpop", A, k], "r = %s.pop(%s, NORES)" % (da, S(k)), da
                 mode, res = "v", "r"
             elif r < 0.68:
-                op, st, tgt = ["dpopitem", A], "r = %s.popitem() if %s else None" % (da, da), da
+                op, st, tgt = ["dpopitem", A], "r = %s.popitem() if %s else NORES" % (da, da), da
                 mode, res = "kv", "r"
             elif r < 0.70:
                 op, st, tgt = ["dclear", A], "%s.clear()" % da, da
@@ -208,7 +208,7 @@ def gen_ord(rnd, pool):
                 k = K()
                 op, st, tgt = ["sremove", A, k], "r = %s.remove(%s) if %s in %s else None" % (sa, S(k), S(k), sa), sa
             elif r < 0.55:
-                op, st, tgt = ["spop", A], "r = %s.pop() if %s else None" % (sa, sa), sa
+                op, st, tgt = ["spop", A], "r = %s.pop() if %s else NORES" % (sa, sa), sa
                 mode, res = "k", "r"
             elif r < 0.57:
                 op, st, tgt = ["sclear", A], "%s.clear()" % sa, sa
